@@ -72,6 +72,12 @@ def main():
         return 2
     pid = a.pid
     P = props.PROPS[pid]
+    # checks of one property share its Kani target directory and its replay scratch copy: they take turns (checks of different
+    # properties run independently; the shared replay target directory has its own lock around build + run)
+    import fcntl
+    os.makedirs(os.path.join(VERIF, ".cache", "locks"), exist_ok=True)
+    plock = open(os.path.join(VERIF, ".cache", "locks", pid + ".lock"), "w")
+    fcntl.flock(plock, fcntl.LOCK_EX)
     if a.replay:
         return replay_run.replay(pid, P, a.replay, REPO, VERIF)
 
